@@ -477,6 +477,8 @@ class Ops:
     ln = z3.If(hi_ > lo_, hi_ - lo_, 0)
     self.assume(s.len(r) == ln)
     self.assume(qforall([i], z3.Implies(z3.And(i >= 0, i < ln), s.get(r, i) == s.get(a.t, i + lo_)), patterns=[s.get(r, i)]))
+    # reverse-direction trigger: a fact about a[j] inside the window reaches r[j - lo]
+    self.assume(qforall([i], z3.Implies(z3.And(i >= lo_, i < lo_ + ln), s.get(r, i - lo_) == s.get(a.t, i)), patterns=[s.get(a.t, i)]))
     return SV(s, r)
 
   def seq_map_coerce(self, v, sort):
@@ -548,6 +550,8 @@ class Ops:
         return SV(a.sort, z3.SetUnion(a.t, bb.t))
       if name == 'BitAnd':
         return SV(a.sort, z3.SetIntersect(a.t, bb.t))
+    if name == 'Add' and isinstance(a, SV) and getattr(a.sort, 'add_hook', None):
+      return a.sort.add_hook(self, a, b)
     if name == 'Mult' and isinstance(a, PyTuple) and isinstance(b, int):
       return PyTuple(tuple(a) * b)
     if name == 'Mult' and isinstance(a, SV) and isinstance(a.sort, SeqOf):
